@@ -90,8 +90,8 @@ func setupGlobals() {
 }
 
 func scratch() string {
-	base := ""
-	if fi, err := realos.Stat("/dev/shm"); err == nil && fi.IsDir() {
+	base := realos.Getenv("CLISCHED_BASE") // a directory of the runner, removed by it when this process has exited
+	if fi, err := realos.Stat("/dev/shm"); base == "" && err == nil && fi.IsDir() {
 		base = "/dev/shm"
 	}
 	d, err := realos.MkdirTemp(base, "clisched")
@@ -166,8 +166,13 @@ func scenarioOf(ts []taskSpec) vsync.NamedScenario {
 	final := snapshot(ref)
 	realos.RemoveAll(ref)
 	nontrivial := digest(initial) != digest(final)
+	prev := "" // the tree of the previous execution: an execution that the explorer cuts short is never verified, so verify cannot be the only place that removes it
 	return vsync.NamedScenario{Name: name, Nontrivial: nontrivial, Sc: func() (func(), func(*vsync.Sched) ([]string, string)) {
+		if prev != "" {
+			realos.RemoveAll(prev)
+		}
 		root := scratch()
+		prev = root
 		populate(root, ts)
 		var crash []string
 		results := make([]bool, len(ts))
